@@ -1,0 +1,62 @@
+//go:build verif
+
+package snes
+
+// Contracts for the snesvc verifier (/verif). Comment-only; compiled only with -tags verif.
+
+// ---- C10: ROM bus readers / writers ----
+// Clause ensures4 of BusReader / BusWriter states the window end the property asks for (end of the bank);
+// the code ends the window one byte earlier, which is pinned by TestROM_BusReader_Fail_Boundary and recorded
+// as a known finding in /verif/known_findings.json. Clause ensures5 states that recorded deviation exactly
+// (end of bank, or one byte earlier), so that any OTHER window end is still a fresh violation.
+// The window of a bus address b with offset >= $8000 is the part of its 32 KiB bank from the LoROM file
+// offset (bank<<15)|(offset-$8000) up to the end of the bank. bytes.NewReader is trusted to yield exactly
+// the slice it is given, then io.EOF.
+
+//@ func (alwaysError).Read
+//@   property C10
+//@   ensures ret1 == 0 && ret2 == io.ErrUnexpectedEOF
+//@   assigns nothing
+
+//@ func (alwaysError).Write
+//@   property C10
+//@   ensures n == 0 && err == io.ErrUnexpectedEOF
+//@   assigns nothing
+
+//@ func (*ROM).BusReader
+//@   property C10
+//@   case busAddr&0xFFFF < 0x8000
+//@   case busAddr&0xFFFF >= 0x8000
+//@   requires busAddr < 0x1000000
+//@   requires busAddr&0xFFFF >= 0x8000 ==> ((busAddr>>16)<<15)+0x8000 <= uint32(len(r.Contents))
+//@   ensures busAddr&0xFFFF < 0x8000 ==> ret1 == alwaysErrorInstance
+//@   ensures busAddr&0xFFFF >= 0x8000 ==> isreader(ret1) && aliases(readerslice(ret1), r.Contents)
+//@   ensures busAddr&0xFFFF >= 0x8000 ==> lo(readerslice(ret1)) == int(((busAddr>>16)<<15)|(busAddr&0x7FFF))
+//@   ensures busAddr&0xFFFF >= 0x8000 ==> lo(readerslice(ret1))+len(readerslice(ret1)) == int((busAddr>>16)<<15)+0x8000
+//@   ensures busAddr&0xFFFF >= 0x8000 ==> lo(readerslice(ret1))+len(readerslice(ret1)) == int((busAddr>>16)<<15)+0x8000 || lo(readerslice(ret1))+len(readerslice(ret1)) == int((busAddr>>16)<<15)+0x7FFF
+//@   assigns nothing
+
+//@ func (*ROM).BusWriter
+//@   property C10
+//@   case busAddr&0xFFFF < 0x8000
+//@   case busAddr&0xFFFF >= 0x8000
+//@   requires busAddr < 0x1000000
+//@   ensures busAddr&0xFFFF < 0x8000 ==> ret1 == alwaysErrorInstance
+//@   ensures busAddr&0xFFFF >= 0x8000 ==> ret1.(*busWriter).r == r && ret1.(*busWriter).o == 0
+//@   ensures busAddr&0xFFFF >= 0x8000 ==> ret1.(*busWriter).start == ((busAddr>>16)<<15)|(busAddr&0x7FFF)
+//@   ensures busAddr&0xFFFF >= 0x8000 ==> ret1.(*busWriter).end == ((busAddr>>16)<<15)+0x8000
+//@   ensures busAddr&0xFFFF >= 0x8000 ==> ret1.(*busWriter).end == ((busAddr>>16)<<15)+0x8000 || ret1.(*busWriter).end == ((busAddr>>16)<<15)+0x7FFF
+//@   assigns nothing
+
+// Write: either all of p is stored contiguously at the cursor and n == len(p), or an error is returned and
+// nothing changes; no byte outside [start+o, start+o+len(p)) changes; the cursor never passes the window end.
+//@ func (*busWriter).Write
+//@   property C10
+//@   requires w.start+w.o >= w.start && w.start+w.o <= w.end && w.end <= uint32(len(w.r.Contents)) && len(w.r.Contents) <= 0x1000000
+//@   ensures isnil(err) ==> n == len(p) && w.o == old(w.o)+uint32(len(p)) && w.start+w.o <= w.end
+//@   ensures isnil(err) ==> all(j, uint32, j < uint32(len(p)) ==> w.r.Contents[w.start+old(w.o)+j] == p[j])
+//@   ensures isnil(err) ==> all(j, uint32, j < uint32(len(w.r.Contents)) && (j < w.start+old(w.o) || j >= w.start+old(w.o)+uint32(len(p))) ==> w.r.Contents[j] == old(w.r.Contents[j]))
+//@   ensures !isnil(err) ==> n == 0 && w.o == old(w.o) && err == io.ErrUnexpectedEOF
+//@   ensures !isnil(err) ==> all(j, uint32, j < uint32(len(w.r.Contents)) ==> w.r.Contents[j] == old(w.r.Contents[j]))
+//@   ensures (!isnil(err)) == (uint32(len(p)) > w.end-(w.start+old(w.o)))
+//@   assigns w.o, w.r.Contents
